@@ -154,6 +154,11 @@ func c04Gen(rt *rapid.T) wProg {
 	p := wProg{}
 	p.Cfg = wConfig{Users: 4, NoPush: true}
 	p.Sess = append([]int(nil), c04Pick(rt, c04Layouts, "layout")...)
+	for k := range p.Sess {
+		if c04Pct(rt, 20) {
+			p.Cfg.Grpc = append(p.Cfg.Grpc, k) // this connection talks protobuf
+		}
+	}
 	isChan := c04Pct(rt, 35)
 	// user 0 logged in at root level: some of its history queries are made on behalf of another user
 	p.Cfg.Root = c04Pct(rt, 25)
@@ -165,6 +170,14 @@ func c04Gen(rt *rapid.T) wProg {
 	kind := "new"
 	if isChan {
 		kind = "nch"
+	}
+	isGrpc := func(s int) bool {
+		for _, g := range p.Cfg.Grpc {
+			if g == s {
+				return true
+			}
+		}
+		return false
 	}
 	firstOf := func(u int) int {
 		for s, x := range p.Sess {
@@ -344,7 +357,8 @@ func c04Gen(rt *rapid.T) wProg {
 					op.Obo = u + 1
 				}
 			}
-			if c04Pct(rt, 30) {
+			// (the protobuf schema has no options for the deletion-log query: a gRPC client cannot send them)
+			if c04Pct(rt, 30) && !isGrpc(s) {
 				op.N = c04Pick(rt, []int{0, 0, 1, 2, 3, 50}, "dsince")
 				op.M = c04Pick(rt, []int{0, 0, 2, 3, 4, 50}, "dbefore")
 				op.L = c04Pick(rt, []int{0, 0, 1, 2, 50}, "dlimit")
@@ -354,6 +368,9 @@ func c04Gen(rt *rapid.T) wProg {
 			op := getData(s, ref)
 			op.A = "data del"
 			op.N, op.M = 0, 0
+			if isGrpc(s) {
+				op.L = 0
+			}
 			p.Ops = append(p.Ops, op)
 		case x < 72:
 			pub(s, ref)
@@ -950,7 +967,7 @@ func (o *c04Obs) judgeGetData(w *wWorld, st *wStep) *kit.Viol {
 			}
 			return o.rep(kit.V(pfx+sig, "%s by user %d (channel reader: %v) returned #%d with from=%q, expected %q", st.Req, u, at.Chan, d.SeqId, d.From, wantFrom))
 		}
-		if !d.Timestamp.Equal(m.ts) {
+		if !m.ts.IsZero() && !d.Timestamp.Equal(m.ts) {
 			return o.rep(kit.V(pfx+"history-timestamp-altered", "%s returned #%d with ts %v, it was published at %v", st.Req, d.SeqId, d.Timestamp, m.ts))
 		}
 	}
@@ -1201,7 +1218,7 @@ func (o *c04Obs) storeCheck(w *wWorld, post *mem.State, st *wStep) *kit.Viol {
 				return o.rep(kit.V("store-hard-delete-missing", "after %s (%s): %s#%d was covered by an accepted hard delete but is still live in the store; hard-deleted per model: %v", after, st.Req, route, seq, c04Ids(tp.hard)))
 			case gone && !erased:
 				return o.rep(kit.V("store-hard-deleted-content-kept", "after %s: %s#%d is hard-deleted but still holds content %s", after, route, seq, row.Content))
-			case !gone && (string(row.Content) != wJSON(m.content) || row.From != w.users[m.author].uid || !row.CreatedAt.Equal(m.ts)):
+			case !gone && (string(row.Content) != wJSON(m.content) || row.From != w.users[m.author].uid || (!m.ts.IsZero() && !row.CreatedAt.Equal(m.ts))): // (a {ctrl} read over gRPC carries no timestamp: the schema has none)
 				return o.rep(kit.V("store-message-altered", "after %s (%s): %s#%d is stored as content=%s from=%v ts=%v; published as %q by user %d at %v", after, st.Req, route, seq, row.Content, row.From, row.CreatedAt, m.content, m.author, m.ts))
 			}
 		}
